@@ -283,7 +283,7 @@ impl Check for C03 {
         "C03"
     }
     fn ncases(&self, tier: Tier) -> u64 {
-        tier.sz(12000, 150000)
+        tier.sz(48000, 750000)
     }
     fn rule(&self) -> &'static str {
         "one generated grammar per case (ambiguous expression grammars with random %left/%right/%nonassoc levels and %prec overrides, multi-way reduce/reduce, dangling else, random grammars; %expect/%expect-rr right, wrong or absent); every (state, token) cell re-derived from closed item sets + edges + the abstract grammar's precedences and compared with action(); reported conflict lists compared with the expected default-rule resolutions; for a third of the cases CTParserBuilder::build must succeed iff the conflict counts equal %expect/%expect-rr (default 0). Non-trivial = table has a cell with >= 2 candidate actions; distinct by normalised grammar."
@@ -296,12 +296,14 @@ impl Check for C03 {
         ]
     }
     fn floor(&self, tier: Tier) -> u64 {
-        tier.sz(2000, 20000)
+        tier.sz(4000, 40000)
     }
     fn required_counters(&self, _t: Tier) -> Vec<&'static str> {
         vec!["sr_default_shift", "sr_prec_shift", "sr_prec_reduce", "sr_nonassoc_error", "rr_cells", "rr_cells_3way", "ct_builds_ok", "ct_builds_refused", "expect_declared_nonzero_but_no_conflicts"]
     }
-    fn run_case(&self, seed: u64, idx: u64, _tier: Tier) -> CaseOut {
+    fn run_case(&self, seed: u64, idx: u64, tier: Tier) -> CaseOut {
+        // thorough tier: every third case draws its random grammars from the medium-sized family
+        set_size_boost(tier == Tier::Thorough && idx % 3 == 1);
         let mut out = CaseOut::new();
         let mut rng = Rng::derive(seed, "C03", idx, 0);
         let mut ag = match rng.weighted(&[45, 15, 15, 25]) {
